@@ -84,6 +84,19 @@ class VG:
 
     def value(self, depth, width=6):
         r = self.rng
+        if depth >= 2 and r.random() < 0.015:
+            # sizes that small trees never reach: hundreds of elements, dozens of nesting levels
+            k = r.randrange(4)
+            if k == 0:
+                return "(list %s)" % " ".join(self.atom() for _ in range(r.choice([100, 300])))
+            if k == 1:
+                return "(make-vector %d %s)" % (r.choice([100, 300]), self.atom())
+            if k == 2:
+                e = self.atom()
+                for _ in range(r.choice([30, 60])):
+                    e = r.choice(["(list %s)", "(vector %s)", "(cons 1 %s)", "(list 0 %s 2)"]) % e
+                return e
+            return "(cons %s %s)" % (" (cons ".join(self.atom() for _ in range(150)), self.atom() + ")" * 149)
         c = r.random()
         if depth <= 0 or c < 0.3:
             return self.atom()
